@@ -343,9 +343,12 @@ class Harness:
         with self.lock:
             self.n += 1
             sid = "t%dx%d" % (os.getpid() % 100000, self.n)
-        out = Scenario(self, sc, sid).run()
         sq = self.squids[sc["store"]]
-        if not sq.alive():
+        if sq.workers and sq.problems():
+            # a kid of the SMP instance died earlier in this batch (the master stays alive and restarts it): do not wait for timeouts
+            return "abort:squid-died " + re.sub(r"\s+", "_", sq.problems()[0])[:120]
+        out = Scenario(self, sc, sid).run()
+        if not sq.alive() or (sq.workers and sq.problems()):
             probs = sq.problems()
             return "abort:squid-died " + (re.sub(r"\s+", "_", probs[0])[:120] if probs else "")
         return out
@@ -365,7 +368,7 @@ class Harness:
         from concurrent.futures import ThreadPoolExecutor
         with ThreadPoolExecutor(max_workers=6) as ex:
             out = list(ex.map(rig.guarded(self.one, list(self.squids.values())), lines))
-        dead = [n for n, s in self.squids.items() if not s.alive()]
+        dead = [n for n, s in self.squids.items() if not s.alive() or (s.workers and s.problems())]
         for n in dead:                   # from the main thread, between batches
             self.crashes += 1
             try:
